@@ -467,7 +467,11 @@ fn with_unit_copies(v: &Value) -> Value {
     static COPIES: std::sync::OnceLock<Mutex<HashMap<usize, &'static libhaystack::units::Unit>>> = std::sync::OnceLock::new();
     fn copy_of(u: &'static libhaystack::units::Unit) -> &'static libhaystack::units::Unit {
         let mut m = COPIES.get_or_init(|| Mutex::new(HashMap::new())).lock().unwrap();
-        *m.entry(u as *const _ as usize).or_insert_with(|| Box::leak(Box::new(u.clone())))
+        *m.entry(u as *const _ as usize).or_insert_with(|| {
+            // (Unit is not Clone: a field-by-field copy through its public fields)
+            let copy: &'static libhaystack::units::Unit = Box::leak(Box::new(libhaystack::units::Unit { quantity: u.quantity.clone(), ids: u.ids.clone(), dimensions: u.dimensions, scale: u.scale, offset: u.offset }));
+            copy
+        })
     }
     match v {
         Value::Number(n) => Value::Number(Number { value: n.value, unit: n.unit.map(copy_of) }),
